@@ -60,8 +60,9 @@ func (e *Engine) VerifyFunction(fn *ssa.Function, c *Contract) (res *FnCtx) {
 				env := fr.specEnv(st, st, nil, nil)
 				env.vars = map[string]Val{}
 				var binders []string
-				for _, v := range ax.Vars {
-					bn := "ax_" + v
+				for vi, v := range ax.Vars {
+					// the bound-variable naming convention keeps side facts of terms over these variables out
+					bn := fmt.Sprintf("qv%dx_ax_%s", 900000+vi, v)
 					binders = append(binders, fmt.Sprintf("(%s Int)", bn))
 					env = env.withBound(v, Val{S: bn, Typ: tInt})
 				}
